@@ -93,6 +93,9 @@ Inductive case :=
 | CTheta (tol : Q) (theta : Q) (axis v q rv rax : list Q)
 (* out = trs.New(p, q, s).Transform(v); viaCtor = the same through Position/Scale/Rotation-only constructors when applicable *)
 | CTrs (tol : Q) (p s q v out : list Q)
+(* the single-purpose constructors and Translate: oP = Position(p).Transform(v), oS = Scale(s).Transform(v),
+   oR = Rotation(q).Transform(v), oT = New(p,q,s).Translate(d).Transform(v) *)
+| CTrsCtor (tol : Q) (p s q d v oP oS oR oT : list Q)
 (* mesh-level: op 0 Rotate(q) | 1 Translate(p) | 2 Scale(s) | 3 ApplyTRS(p,q,s);
    out = Position of the transformed mesh, pointwise = the point function applied by the harness to each position *)
 | CMesh (tol : Q) (op : nat) (p s q : list Q) (ps out pointwise : list (list Q)) (rest_same : bool)
@@ -129,6 +132,12 @@ Definition corr_ok (k : case) : bool :=
       closel tol (quat_to Qm) q && closel tol (v3_to (Quat.Quaternion_Rotate Qm (v3_of v))) rv
   | CTrs tol p s q v out =>
       closel tol (v3_to (Trs.TRS_Transform (Trs.New (v3_of p) (quat_of q) (v3_of s)) (v3_of v))) out
+  | CTrsCtor tol p s q d v oP oS oR oT =>
+      let V := v3_of v in
+      closel tol (v3_to (Trs.TRS_Transform (Trs.Position (v3_of p)) V)) oP &&
+      closel tol (v3_to (Trs.TRS_Transform (Trs.Scale (v3_of s)) V)) oS &&
+      closel tol (v3_to (Trs.TRS_Transform (Trs.Rotation (quat_of q)) V)) oR &&
+      closel tol (v3_to (Trs.TRS_Transform (Trs.TRS_Translate (Trs.New (v3_of p) (quat_of q) (v3_of s)) (v3_of d)) V)) oT
   | CMesh tol op p s q ps out pointwise rest_same =>
       let f := match op with
                | 0 => Quat.Quaternion_Rotate (quat_of q)
@@ -199,6 +208,13 @@ Definition prop_ok (k : case) : bool :=
       lenb 4 q && lenb 3 rv && close tol (qnorm2l q) 1 && close tol (qdot rv rv) (qdot v v) && closel tol rax axis
   | CTrs tol p s q v out =>
       lenb 3 out && closel tol out (v3_to (trs_spec (v3_of p) (v3_of s) (quat_of q) (v3_of v)))
+  | CTrsCtor tol p s q d v oP oS oR oT =>
+      let V := v3_of v in
+      lenb 3 oP && lenb 3 oS && lenb 3 oR && lenb 3 oT &&
+      closel tol oP (v3_to (v3_add V (v3_of p))) &&
+      closel tol oS (v3_to (v3_mult_by_vector (v3_of s) V)) &&
+      closel tol oR (v3_to (rotate_spec (quat_of q) V)) &&
+      closel tol oT (v3_to (v3_add (trs_spec (v3_of p) (v3_of s) (quat_of q) V) (v3_of d)))
   | CMesh tol op p s q ps out pointwise rest_same =>
       (* positions move exactly as the underlying transform moves points; nothing else changes *)
       Nat.eqb (length out) (length ps) && closell 0 out pointwise && rest_same
